@@ -88,6 +88,8 @@ type Session struct {
 
 	state   LogonState
 	stateMu sync.RWMutex
+	// stateBeforeTestReq is the state the session was in when the pending TestRequest was sent.
+	stateBeforeTestReq LogonState
 
 	// Services:
 	Router       Handler
@@ -504,10 +506,8 @@ func (s *Session) Run() (err error) {
 			return true
 		}
 
-		if s.currentState() == WaitingTestReqAnswer {
-			// reset SuccessfulLogged statue without event trigger
-			s.changeState(SuccessfulLogged, false)
-		}
+		// the peer is alive: leave the TestRequest waiting state without event trigger
+		s.endTestRequestWaiting()
 
 		return true
 	})
@@ -572,9 +572,7 @@ func (s *Session) start() error {
 
 	s.Router.HandleIncoming(simplefixgo.AllMsgTypes, func(msg []byte) bool {
 		incomingMsgTimer.Refresh()
-		if s.currentState() == WaitingTestReqAnswer {
-			s.changeState(SuccessfulLogged, false)
-		}
+		s.endTestRequestWaiting()
 
 		return true
 	})
@@ -606,7 +604,7 @@ func (s *Session) start() error {
 			expectedTestReq := strconv.Itoa(testReqCounter)
 			testRequest.SetFieldTestReqID(expectedTestReq)
 
-			s.changeState(WaitingTestReqAnswer, true)
+			s.beginTestRequestWaiting()
 			s.sendWithErrorCheck(testRequest)
 		}
 	}()
@@ -689,6 +687,26 @@ func (s *Session) send(msg messages.Message) error {
 
 func (s *Session) sendWithErrorCheck(msg messages.Message) {
 	s.HandlerError(s.send(msg))
+}
+
+// beginTestRequestWaiting remembers the current state and switches to WaitingTestReqAnswer.
+func (s *Session) beginTestRequestWaiting() {
+	s.stateMu.Lock()
+	defer s.stateMu.Unlock()
+
+	s.stateBeforeTestReq = s.state
+	s.state = WaitingTestReqAnswer
+}
+
+// endTestRequestWaiting returns to the state the session was in before the TestRequest:
+// a message from a peer that is not logged on (after a Logout, say) must not log it on.
+func (s *Session) endTestRequestWaiting() {
+	s.stateMu.Lock()
+	defer s.stateMu.Unlock()
+
+	if s.state == WaitingTestReqAnswer {
+		s.state = s.stateBeforeTestReq
+	}
 }
 
 func (s *Session) currentState() LogonState {
